@@ -4,6 +4,7 @@ package conf
 // As a general rule of thumb, if an error message only has one parameter, the parameter name will be the same as the error code
 import (
 	"fmt"
+	"sort"
 	"strings"
 
 	"github.com/Oudwins/zog/i18n/en"
@@ -34,8 +35,15 @@ func NewDefaultFormatter(m zconst.LangMap) p.IssueFmtFunc {
 			e.SetMessage(m[t][zconst.IssueCodeFallback])
 			return
 		}
-		for k, v := range e.Params {
-			msg = strings.ReplaceAll(msg, "{{"+k+"}}", fmt.Sprintf("%v", v))
+		// fill the placeholders in sorted key order: a parameter whose text contains another placeholder must not
+		// make the message depend on map iteration order
+		keys := make([]string, 0, len(e.Params))
+		for k := range e.Params {
+			keys = append(keys, k)
+		}
+		sort.Strings(keys)
+		for _, k := range keys {
+			msg = strings.ReplaceAll(msg, "{{"+k+"}}", fmt.Sprintf("%v", e.Params[k]))
 		}
 		msg = strings.ReplaceAll(msg, valuePlaceholder, fmt.Sprintf("%v", e.Value))
 		e.SetMessage(msg)
